@@ -19,8 +19,11 @@ edit to any feature of any definition of the closure changes the meaning (the ge
 `c01.py` are built the same way: every feature flows into the returned value).
 
 Program class (`Tracked`): the root is automatically versioned and everything named in its closure
-is an automatically versioned memento function, a plain function of the package, or a variable of a
-supported type. Hash idealisation: SHA-256 truncated to 16 hex digits is an injective function with
+is a memento function (automatically **or explicitly** versioned), a plain function of the package, or a
+variable of a supported type. For explicitly versioned functions the user's side of the contract is the
+hypothesis `Disciplined P P'`: a function that carries the same explicit version string in both editions
+has the same definition in both (nothing is assumed about what lies beneath it: the closure walks through
+explicitly versioned functions, so everything beneath is covered by the digests). Hash idealisation: SHA-256 truncated to 16 hex digits is an injective function with
 16-character values (`Function.Injective H`, `∀ s, (H s).length = 16`) — hypotheses, not axioms.
 
 The two hypotheses that the proof *forces* mark real collision points of the code, shown below by
@@ -30,6 +33,14 @@ witnesses that need no assumption on `H` at all:
   `explicit_versions_framed`);
 * rules for undefined symbols contribute nothing, and a variable's digest does not include its name
   (`undefined_symbol_collide`, remark R2: needs deleting one variable and defining another).
+
+Extending the theorem to explicitly versioned dependencies exposed a third collision point: the digest of an
+explicit version did not cover the *name* of its function, and rule digests are concatenated in key order
+without their keys, so `g "1" → h "2" → g` and `g "2" → a "1" → a` (with `a` sorting before the caller) gave
+the caller the same version although every edited function had its string changed. A bounded search over the
+model found the witness, it was replayed on the real code (finding F23, repaired by a `fix:` commit; the
+model follows the fixed code) and is kept as `explicit_digest_without_name_collides` /
+`explicit_digest_names_function`.
 -/
 namespace Memento.Version
 
@@ -37,21 +48,21 @@ namespace Memento.Version
     name of `f`'s closure (its functions and everything they name) to the same definition. -/
 theorem version_determines_closure (H : Ser → List Char) (hinj : Function.Injective H)
     (hw : ∀ s, (H s).length = 16) (P P' : Prog) (f : Name) (hT : Tracked P f) (hT' : Tracked P' f)
-    (hv : version H P id f = version H P' id f) :
+    (hd : Disciplined P P') (hv : version H P id f = version H P' id f) :
     (∀ n, InClos P f n → lookup P' n = lookup P n) ∧ (∀ n, InClos P' f n → lookup P n = lookup P' n) := by
   have h1 : versionInput H P id f = versionInput H P' id f := by
     have := hinj hv
     simpa using this
   have h2 : hashList H P f = hashList H P' f :=
     flatten_inj_uniform (by decide : 0 < 16) _ _ (hashList_width hw hT) (hashList_width hw hT') h1
-  have ha : Agree H P P' f := ⟨hinj, hT, hT', h2⟩
+  have ha : Agree H P P' f := ⟨hinj, hT, hT', hd, h2⟩
   exact ⟨fun n hn => ha.lookup_clos hn, fun n hn => ha.symm.lookup_clos hn⟩
 
 /-- **closure determines meaning** (here directly from the agreement of digests) and hence
     **equal version ⇒ equal meaning**, at every evaluation depth and for every argument. -/
 theorem equal_version_equal_meaning (H : Ser → List Char) (hinj : Function.Injective H)
     (hw : ∀ s, (H s).length = 16) (P P' : Prog) (f : Name) (hT : Tracked P f) (hT' : Tracked P' f)
-    (ord ord' : List Name → List Name) (ho : OrdOK ord) (ho' : OrdOK ord')
+    (hd : Disciplined P P') (ord ord' : List Name → List Name) (ho : OrdOK ord) (ho' : OrdOK ord')
     (hv : version H P ord f = version H P' ord' f) (k a : Nat) :
     eval P k f a = eval P' k f a := by
   rw [version_order_independent H P ord id ho ordOK_id, version_order_independent H P' ord' id ho' ordOK_id] at hv
@@ -60,7 +71,7 @@ theorem equal_version_equal_meaning (H : Ser → List Char) (hinj : Function.Inj
     simpa using this
   have h2 : hashList H P f = hashList H P' f :=
     flatten_inj_uniform (by decide : 0 < 16) _ _ (hashList_width hw hT) (hashList_width hw hT') h1
-  exact Agree.eval_eq ⟨hinj, hT, hT', h2⟩ a k f (Or.inl (Or.inl rfl))
+  exact Agree.eval_eq ⟨hinj, hT, hT', hd, h2⟩ a k f (Or.inl (Or.inl rfl))
 
 /-! ### the store-level statement -/
 
@@ -70,10 +81,13 @@ abbrev VStore := List ((Name × List Char × Nat) × Res)
 def VStore.get (s : VStore) (key : Name × List Char × Nat) : Option Res :=
   (s.find? (fun e => e.1 == key)).map (·.2)
 
-/-- every entry was computed by *some* tracked edition of the program under the version that edition gave
+/-- a history of editions in which explicit versions are used with discipline: any two editions are `Disciplined` -/
+def DisciplinedHistory (E : Prog → Prop) : Prop := ∀ P P', E P → E P' → Disciplined P P'
+
+/-- every entry was computed by *some* tracked edition of the history `E` under the version that edition gave
     the function (the store may have been filled by any number of earlier editions, in any order) -/
-def FilledByEditions (H : Ser → List Char) (k : Nat) (s : VStore) : Prop :=
-  ∀ f v a r, ((f, v, a), r) ∈ s → ∃ P ord, OrdOK ord ∧ Tracked P f ∧ version H P ord f = v ∧ r = eval P k f a
+def FilledByEditions (H : Ser → List Char) (k : Nat) (E : Prog → Prop) (s : VStore) : Prop :=
+  ∀ f v a r, ((f, v, a), r) ∈ s → ∃ P ord, E P ∧ OrdOK ord ∧ Tracked P f ∧ version H P ord f = v ∧ r = eval P k f a
 
 /-- what a memoized call of `f a` returns under the current edition `P` -/
 def memoCall (H : Ser → List Char) (k : Nat) (s : VStore) (P : Prog) (ord : List Name → List Name) (f a : Name) : Res :=
@@ -84,8 +98,8 @@ def memoCall (H : Ser → List Char) (k : Nat) (s : VStore) (P : Prog) (ord : Li
 /-- **no stale result**: whatever editions filled the store, a memoized call under the current edition returns
     exactly what the un-memoized execution of the current edition returns -/
 theorem no_stale (H : Ser → List Char) (hinj : Function.Injective H) (hw : ∀ s, (H s).length = 16)
-    (k : Nat) (s : VStore) (hs : FilledByEditions H k s)
-    (P : Prog) (ord : List Name → List Name) (ho : OrdOK ord) (f a : Nat) (hT : Tracked P f) :
+    (k : Nat) (E : Prog → Prop) (hE : DisciplinedHistory E) (s : VStore) (hs : FilledByEditions H k E s)
+    (P : Prog) (hP : E P) (ord : List Name → List Name) (ho : OrdOK ord) (f a : Nat) (hT : Tracked P f) :
     memoCall H k s P ord f a = eval P k f a := by
   unfold memoCall
   cases hg : s.get (f, version H P ord f, a) with
@@ -105,19 +119,19 @@ theorem no_stale (H : Ser → List Char) (hinj : Function.Injective H) (hw : ∀
       obtain ⟨rfl, rfl, rfl⟩ := hkey
       simp only at hg
       subst hg
-      obtain ⟨P0, ord0, ho0, hT0, hv0, hr0⟩ := hs _ _ _ _ hmem
+      obtain ⟨P0, ord0, hP0, ho0, hT0, hv0, hr0⟩ := hs _ _ _ _ hmem
       rw [hr0]
-      exact equal_version_equal_meaning H hinj hw P0 P f' hT0 hT ord0 ord ho0 ho hv0 k a'
+      exact equal_version_equal_meaning H hinj hw P0 P f' hT0 hT (hE P0 P hP0 hP) ord0 ord ho0 ho hv0 k a'
 
 /-- the storing side: adding the result the current edition computes keeps the store `FilledByEditions` -/
-theorem store_preserves (H : Ser → List Char) (k : Nat) (s : VStore) (hs : FilledByEditions H k s)
-    (P : Prog) (ord : List Name → List Name) (ho : OrdOK ord) (f a : Nat) (hT : Tracked P f) :
-    FilledByEditions H k (((f, version H P ord f, a), eval P k f a) :: s) := by
+theorem store_preserves (H : Ser → List Char) (k : Nat) (E : Prog → Prop) (s : VStore) (hs : FilledByEditions H k E s)
+    (P : Prog) (hP : E P) (ord : List Name → List Name) (ho : OrdOK ord) (f a : Nat) (hT : Tracked P f) :
+    FilledByEditions H k E (((f, version H P ord f, a), eval P k f a) :: s) := by
   intro f' v' a' r' hmem
   rcases List.mem_cons.mp hmem with h | h
   · simp only [Prod.mk.injEq] at h
     obtain ⟨⟨rfl, rfl, rfl⟩, rfl⟩ := h
-    exact ⟨P, ord, ho, hT, rfl, rfl⟩
+    exact ⟨P, ord, hP, ho, hT, rfl, rfl⟩
   · exact hs _ _ _ _ h
 
 /-! ### the collision points the hypotheses exclude (for every hash function `H`) -/
@@ -147,6 +161,53 @@ theorem undefined_symbol_collide (H : Ser → List Char) :
   · intro h
     simp [eval, exR2a, exR2b, lookup] at h
 
+/-- F23 (repaired): names `a = 0 < f = 1 < g = 2 < h = 3`. First edition: `f → g "1" → h "2" → g`; second edition:
+    `g` rewritten and bumped, `h` dropped, a new function `a`: `f → g "2" → a "1" → a`. No function keeps a version
+    string (so the editions are `Disciplined`), and `f`'s meaning differs. -/
+def exF23a : Prog := [(1, .memento none 10 [2]), (2, .memento (some ['1']) 20 [3]), (3, .memento (some ['2']) 30 [2])]
+def exF23b : Prog := [(0, .memento (some ['1']) 40 [0]), (1, .memento none 10 [2]), (2, .memento (some ['2']) 21 [0])]
+
+/-- the rule digests as they were before the fix: an explicit version was digested without the function's name -/
+def ruleHashUnnamed (H : Ser → List Char) (P : Prog) (x : Node) : Option (List Char) :=
+  match x.kind, lookup P x.target with
+  | .mfn, some (.memento (some e) _ _) => some (H (.explicit 0 e))
+  | _, _ => ruleHash H P x
+
+theorem explicit_digest_without_name_collides (H : Ser → List Char) :
+    ((sortedRules exF23a id 1).filterMap (ruleHashUnnamed H exF23a)).flatten =
+      ((sortedRules exF23b id 1).filterMap (ruleHashUnnamed H exF23b)).flatten ∧
+    Disciplined exF23a exF23b ∧ eval exF23a 3 1 0 ≠ eval exF23b 3 1 0 := by
+  refine ⟨?_, ?_, ?_⟩
+  · have ha : sortedRules exF23a id 1 = [⟨.mfn, none, 1⟩, ⟨.mfn, some 1, 2⟩, ⟨.mfn, some 2, 3⟩, ⟨.mfn, some 3, 2⟩] := by
+      decide +kernel
+    have hb : sortedRules exF23b id 1 = [⟨.mfn, none, 1⟩, ⟨.mfn, some 0, 0⟩, ⟨.mfn, some 1, 2⟩, ⟨.mfn, some 2, 0⟩] := by
+      decide +kernel
+    rw [ha, hb]
+    simp [ruleHashUnnamed, ruleHash, exF23a, exF23b, lookup]
+  · intro g e tok refs tok' refs' h1 h2
+    have hg : g = 2 := by
+      by_cases h0 : g = 0
+      · subst h0; simp [exF23a, lookup] at h1
+      · by_cases h1' : g = 1
+        · subst h1'; simp [exF23a, lookup] at h1
+        · by_cases h2' : g = 2
+          · exact h2'
+          · by_cases h3 : g = 3
+            · subst h3; simp [exF23b, lookup] at h2
+            · simp [exF23a, lookup, h1', h2', h3, Ne.symm h1', Ne.symm h2', Ne.symm h3] at h1
+    subst hg
+    simp [exF23a, lookup] at h1
+    simp [exF23b, lookup] at h2
+    obtain ⟨e1, _, _⟩ := h1
+    obtain ⟨e2, _, _⟩ := h2
+    rw [← e1] at e2; simp at e2
+  · intro h
+    simp [eval, exF23a, exF23b, lookup] at h
+
+/-- with the name covered by the digest (the code as fixed) the two editions have different version inputs -/
+theorem explicit_digest_names_function : versionInput exH exF23a id 1 ≠ versionInput exH exF23b id 1 := by
+  decide +kernel
+
 /-! ### non-vacuity of the hypotheses -/
 
 def exT : Prog :=
@@ -171,14 +232,49 @@ example : Tracked exT 0 := by
     · exact Or.inr (Or.inl ⟨13, [], rfl⟩)
     · exact Or.inr (Or.inr ⟨7, rfl⟩)
   · rcases hr with rfl | rfl
-    · exact Or.inl ⟨12, [0], rfl⟩
+    · exact Or.inl ⟨none, 12, [0], rfl⟩
     · exact Or.inr (Or.inr ⟨7, rfl⟩)
-  · subst hr; exact Or.inl ⟨10, [1, 3, 5], rfl⟩
+  · subst hr; exact Or.inl ⟨none, 10, [1, 3, 5], rfl⟩
 
 /-- an edit beneath a helper changes the version input (so, for injective `H`, the version) -/
 def exT' : Prog :=
   [(0, .memento none 10 [1, 3, 5]), (1, .plain true 11 [2, 5]), (2, .memento none 12 [0]), (3, .plain true 13 []),
    (5, .var (some 8))]
 example : versionInput exH exT id 0 ≠ versionInput exH exT' id 0 := by decide +kernel
+
+/-- the hypotheses about explicit versions are satisfiable: `f → g "1" → V`, then `g` edited and bumped to "2" -/
+def exTE : Prog := [(0, .memento none 10 [1]), (1, .memento (some ['1']) 20 [5]), (5, .var (some 7))]
+def exTE' : Prog := [(0, .memento none 10 [1]), (1, .memento (some ['2']) 21 [5]), (5, .var (some 7))]
+
+theorem exTE_tracked (g : Tok) (e : List Char) :
+    Tracked [(0, .memento none 10 [1]), (1, .memento (some e) g [5]), (5, .var (some 7))] 0 := by
+  refine ⟨⟨10, [1], rfl⟩, ?_⟩
+  intro p r _ href
+  obtain ⟨d, hd, hr⟩ := href
+  have hp := lookup_some_mem hd
+  simp only [List.mem_cons, Prod.mk.injEq, List.not_mem_nil, or_false] at hp
+  rcases hp with ⟨rfl, rfl⟩ | ⟨rfl, rfl⟩ | ⟨rfl, rfl⟩ <;>
+    simp only [Def.refs, List.mem_cons, List.not_mem_nil, or_false] at hr
+  · subst hr; exact Or.inl ⟨some e, g, [5], rfl⟩
+  · subst hr; exact Or.inr (Or.inr ⟨7, rfl⟩)
+
+example : Tracked exTE 0 ∧ Tracked exTE' 0 := ⟨exTE_tracked 20 ['1'], exTE_tracked 21 ['2']⟩
+
+example : Disciplined exTE exTE' := by
+  intro g e tok refs tok' refs' h1 h2
+  by_cases hg : g = 1
+  · subst hg
+    simp [exTE, lookup] at h1
+    simp [exTE', lookup] at h2
+    obtain ⟨e1, _, _⟩ := h1
+    obtain ⟨e2, _, _⟩ := h2
+    rw [← e1] at e2; simp at e2
+  · by_cases h0 : g = 0
+    · subst h0; simp [exTE, lookup] at h1
+    · by_cases h5 : g = 5
+      · subst h5; simp [exTE, lookup] at h1
+      · simp [exTE, lookup, Ne.symm hg, Ne.symm h0, Ne.symm h5] at h1
+
+example : versionInput exH exTE id 0 ≠ versionInput exH exTE' id 0 := by decide +kernel
 
 end Memento.Version
